@@ -239,7 +239,15 @@ def execute(scenario: dict) -> dict:
                 live = conv(coll)
                 rel = conv(coll2)
                 log["live"] = live
-                if _strip(live) != _strip(rel):
+                same = _strip(live) == _strip(rel)
+                if not same and isinstance(live.get("ok"), list) and isinstance(rel.get("ok"), list):
+                    l2, r2 = dict(_strip(live)), dict(_strip(rel))
+                    l2["ok"] = [canon_query(x) for x in live["ok"]]
+                    r2["ok"] = [canon_query(x) for x in rel["ok"]]
+                    if l2 == r2:
+                        same = True
+                        probes["equal_modulo_and_or_operand_order"] = 1
+                if not same:
                     outcome = "queries-differ"
                     violation = {"oracle": "reloaded-object-converts-to-same-queries", "kind": "queries-differ",
                                  "got": rel, "want": live, "dumped": dumped}
@@ -255,6 +263,79 @@ def execute(scenario: dict) -> dict:
     sig = core.digest([sc["kind"], tk, outcome, mods[:6]])
     return {"violation": violation, "log": log, "faults": faults, "probes": probes, "steps": steps,
             "signature": sig, "nontrivial": changed or esc}
+
+
+def _split_top(expr: str, sep: str) -> list[str]:
+    """split at top-level occurrences of sep (outside quotes, /regex/ literals and parentheses)"""
+    parts, cur, depth, i, n = [], [], 0, 0, len(expr)
+    in_str = in_re = False
+    while i < n:
+        ch = expr[i]
+        if in_str:
+            cur.append(ch)
+            if ch == "\\" and i + 1 < n:
+                cur.append(expr[i + 1])
+                i += 1
+            elif ch == '"':
+                in_str = False
+        elif in_re:
+            cur.append(ch)
+            if ch == "\\" and i + 1 < n:
+                cur.append(expr[i + 1])
+                i += 1
+            elif ch == "/":
+                in_re = False
+        elif ch == '"':
+            in_str = True
+            cur.append(ch)
+        elif ch == "/" and "".join(cur[-2:]) in ("=~", "!~", "w("):
+            in_re = True
+            cur.append(ch)
+        elif ch == "(":
+            depth += 1
+            cur.append(ch)
+        elif ch == ")":
+            depth -= 1
+            cur.append(ch)
+        elif depth == 0 and expr.startswith(sep, i):
+            parts.append("".join(cur))
+            cur = []
+            i += len(sep)
+            continue
+        else:
+            cur.append(ch)
+        i += 1
+    parts.append("".join(cur))
+    return parts
+
+
+def canon_query(q: Any) -> Any:
+    """canonical form of a SimBackendPlain query modulo the operand order of AND / OR (commutative):
+    writing items with duplicate keys as one 'key|all' item legitimately moves operands"""
+    if not isinstance(q, str):
+        return q
+    q = q.strip()
+    ors = _split_top(q, " OR ")
+    if len(ors) > 1:
+        return "OR(" + ",".join(sorted(canon_query(x) for x in ors)) + ")"
+    ands = _split_top(q, " AND ")
+    if len(ands) > 1:
+        return "AND(" + ",".join(sorted(canon_query(x) for x in ands)) + ")"
+    if q.startswith("NOT "):
+        return "NOT(" + canon_query(q[4:]) + ")"
+    if q.startswith("(") and q.endswith(")") and len(_split_top(q[1:-1], "\x00")) == 1:
+        inner = q[1:-1]
+        depth = 0
+        balanced = True
+        for ch in inner:
+            depth += ch == "("
+            depth -= ch == ")"
+            if depth < 0:
+                balanced = False
+                break
+        if balanced:
+            return canon_query(inner)
+    return q
 
 
 def _strip(res: dict) -> Any:
